@@ -598,6 +598,12 @@ class HierarchyElement(DiagLayer):
         if protocol_name is not None:
             cps = [cp for cp in cps if cp.protocol_snref in (None, protocol_name)]
 
+            # definitions which are specific to the protocol take
+            # precedence over generic ones
+            specific_cps = [cp for cp in cps if cp.protocol_snref == protocol_name]
+            if specific_cps:
+                cps = specific_cps
+
         if len(cps) > 1:
             warnings.warn(
                 f"Communication parameter `{cp_short_name}` specified more "
